@@ -56,7 +56,7 @@ Qed.
 Section RefEnc.
   Variable cs : string -> option (list byte -> N).
   Variable M : bmodel.
-  Variable mk : packet -> nat.
+  Variable mk : string -> packet -> nat.
   Hypothesis Hnodup : NoDup (map fst (all_packets M)).
 
   Let P := ref_prog M mk.
@@ -125,7 +125,7 @@ Section RefEnc.
 
     (* the position variable of the length placeholder tracks the specification's [lp] *)
     Definition marks_ok (st : estate) (lp : option nat) : Prop :=
-      forall pos, lp = Some pos -> lookup_mark (st_marks st) (mk p) = Some pos.
+      forall pos, lp = Some pos -> lookup_mark (st_marks st) (mk path p) = Some pos.
 
     Lemma lookup_mark_hd m k v : lookup_mark ((k, v) :: m) k = Some v.
     Proof. cbn [lookup_mark]. rewrite Nat.eqb_refl. reflexivity. Qed.
